@@ -10,4 +10,15 @@ PROPS = {
     },
 }
 
+PROPS['C04'] = {
+    'contracts': ['contracts.io:NameToIndex', 'contracts.io:Range', 'contracts.io:Resolution',
+                  'contracts.io:AmplificationType', 'contracts.io:AmplifierGain', 'contracts.io:DetectorVoltage',
+                  'contracts.io:ChannelLabels', 'contracts.io:ArrayFinalize', 'contracts.io:GetItem', 'contracts.io:SetItem'],
+    'bounded': False,
+    'level': 'proof',
+    'explanation': 'FCSData.__getitem__ over the key grammar rows x cols (symbolic N, D, positions, names, list lengths): '
+                   'values == plain array indexing of the translated key, every per-channel attribute == that of the selected '
+                   'columns in order, refusals only for unknown names / out-of-range positions / forms outside the grammar.',
+}
+
 NOT_APPLICABLE = {}
